@@ -274,7 +274,8 @@ def timer_case(sc: dict[str, Any]) -> dict[str, Any]:
 def vault_stage(ctx, rep) -> None:
     """(C) Vault.tla: model checking and step conformance of the real re-authentication machinery."""
     from vf import vault
-    cfgs = ['MC_Vault_k1.cfg', 'MC_Vault_k2q.cfg'] if ctx.quick else ['MC_Vault_k1.cfg', 'MC_Vault_k2.cfg', 'MC_Vault_k2all.cfg', 'MC_Vault_live.cfg']
+    cfgs = (['MC_Vault_k1.cfg', 'MC_Vault_k2q.cfg', 'MC_Vault_expq.cfg'] if ctx.quick else
+            ['MC_Vault_k1.cfg', 'MC_Vault_k2.cfg', 'MC_Vault_k2all.cfg', 'MC_Vault_exp.cfg', 'MC_Vault_live.cfg'])
     for cfg in cfgs:
         r = tlc.run('MC_Vault', cfg, timeout=3600)
         rep.add_tlc(cfg[:-4], r)
@@ -286,8 +287,14 @@ def vault_stage(ctx, rep) -> None:
     if ('invariant', 'ReauthOnlyOnRevocation') not in r.violated:
         from vf.evidence import MachineryFailure
         raise MachineryFailure(f'the negative variant of Vault.tla (invalidate by key) must violate ReauthOnlyOnRevocation: {r.violated}')
-    rep.extra['negative_config_vault'] = 'MC_Vault_neg (Variant = "bykey"): ReauthOnlyOnRevocation violated, as it must be'
-    scs = vault.scenarios(ctx.seed, 400 if ctx.quick else 6000)
+    r = tlc.run('MC_Vault', 'MC_Vault_f37.cfg')
+    rep.add_tlc('MC_Vault_f37', r)
+    if ('invariant', 'NoCrash') not in r.violated and ('invariant', 'NoLeak') not in r.violated:
+        from vf.evidence import MachineryFailure
+        raise MachineryFailure(f'the code before the repair F37 (Variant = "f37") must violate NoCrash / NoLeak under expiration: {r.violated}')
+    rep.extra['negative_config_vault'] = ('MC_Vault_neg (Variant = "bykey"): ReauthOnlyOnRevocation violated, as it must be; MC_Vault_f37 (the code before the '
+                                          'repair F37): NoCrash / NoLeak violated when credentials expire while requests take turns at the lock')
+    scs = vault.crafted() + vault.scenarios(ctx.seed, 400 if ctx.quick else 6000)
     with ProcessPoolExecutor(16) as ex:
         traces = list(ex.map(vault.run_case, scs, chunksize=8))
     verdicts = {}
@@ -298,7 +305,7 @@ def vault_stage(ctx, rep) -> None:
     for t in traces:
         v = verdicts[t['id']]['verdict']
         evs = {e['ev'] for e in t['events']}
-        for f in ('lock.queue', 'send.closed', 'retry', 'sel.fail', 'flush.b', 'cond.wake'):
+        for f in ('lock.queue', 'send.closed', 'retry', 'sel.fail', 'flush.b', 'cond.wake', 'expire'):
             feats[f] = feats.get(f, 0) + (f in evs)
         feats[t['mode']] = feats.get(t['mode'], 0) + 1
         feats[f'keys={t["nkeys"]}'] = feats.get(f'keys={t["nkeys"]}', 0) + 1
@@ -313,6 +320,8 @@ def vault_stage(ctx, rep) -> None:
             rep.violation(f'{t["id"]}: the authenticator died: {t["auth_died"]}', payload)
         elif any(o.startswith('crash') for os_ in t['outcomes'].values() for o in os_):
             rep.violation(f'{t["id"]}: a request ended with an unexpected error: {t["outcomes"]}', payload)
+        elif verdicts[t['id']].get('noted'):
+            rep.violation(f'{t["id"]}: {verdicts[t["id"]]["noted"]}: credentials that have left the vault were revived for a request (a context made for them / a request sent with them)', payload)
     rep.extra['vault_trace_features'] = feats
     rep.sample({'vault_trace': traces[0]['id'], 'events': traces[0]['events'][:40]})
 
